@@ -243,10 +243,23 @@ def run(repo: Repo, rep: Report, tier: str) -> None:
     dg = repo.func("visit.model.dataclass_generator:DataclassGenerator.generate")
     DL = Locals(dg.node)
     lp = property_loop(dg, DL)
+    if len(lp) != 1:
+        from sa.flatten import flatten as _fl24
+
+        dg = _fl24(dg)  # the per-property work may have been split into helpers of the generator: written out
+        DL = Locals(dg.node)
+        lp = property_loop(dg, DL)
     rep.require(len(lp) == 1, "R2.4: property loop of DataclassGenerator.generate not found")
     for loop in lp:
         key = loop.target.elts[0].id if isinstance(loop.target.elts[0], ast.Name) else None  # type: ignore[attr-defined]
-        skips = [n for n in ast.walk(loop) if isinstance(n, (ast.Continue, ast.Break))]
+        def _own_loop(n_: ast.AST):
+            x_ = parent(n_)
+            while x_ is not None and not isinstance(x_, (ast.For, ast.AsyncFor, ast.While)):
+                x_ = parent(x_)
+            return x_
+
+        # (a `break` that leaves a one-shot `while True:` - the shape of a written-out helper - does not leave the property loop)
+        skips = [n for n in ast.walk(loop) if isinstance(n, (ast.Continue, ast.Break)) and _own_loop(n) is loop]
         sub = f"{dg.module.relpath}:DataclassGenerator.generate property loop"
         if not skips:
             rep.ok("R2.3", sub, "no continue/break: one field per declared property", dg.loc(loop))
